@@ -19,6 +19,9 @@
 #include "c16_common.hpp"
 #include "../common/amgcl_util.hpp"
 
+#ifndef C16_TOLSCALE
+#define C16_TOLSCALE 1.0L   // calibration only: compile with -DC16_TOLSCALE=1e-3L to measure the slack of the rounding bounds
+#endif
 using namespace c16;
 namespace ab = amgcl::backend;
 typedef amgcl::static_matrix<double, 2, 2> blk2;
@@ -200,6 +203,10 @@ void check_exact(Ctx &c, const Pat &P, int variant, const std::vector<int> &perm
     c.label(std::string("val:") + LT<V>::name()); c.label(std::string("order:") + variant_name(variant));
     c.label(E.fill ? "fill-inside-skyline" : "no-fill"); if (nonsym) c.label("structurally-nonsymmetric");
     c.label(zp >= 0 ? "zero-pivot" : "regular");
+    // intermediates too large to be exact in double (dense fill makes them grow doubly exponentially): the matrix the solver
+    // would see is not the constructed one (a_kk = pivot + sum loses the pivot, or overflows), so the case is not run; counted,
+    // and kept to a small fraction by the generator
+    if (!exact_ok) { c.label("exact-guard-exceeded"); return; }
     auto A = assemble<V>(P, perm, E.A);
     typedef typename LT<V>::rhs R;
     std::vector<R> b(n), x(n);
@@ -213,9 +220,6 @@ void check_exact(Ctx &c, const Pat &P, int variant, const std::vector<int> &perm
         VF_REQUIRE(!ok, "skyline_lu accepted a matrix whose pivot " << zp << " (in its own ordering) is exactly zero; no exception");
         return;
     }
-    // intermediates too large to be exact in double: the matrix the solver sees is not the constructed one (a_kk = pivot + sum
-    // loses the pivot), so nothing can be asserted; counted, and kept rare by the generator
-    if (!exact_ok) { c.label("exact-guard-exceeded"); return; }
     c.nontrivial = n >= 2 && (E.fill || nonsym || B > 1);
     VF_REQUIRE(ok, "skyline_lu threw \"" << err << "\" on a matrix whose pivots (in its own ordering) are all units * 2^e");
     for (int i = 0; i < n; ++i) for (int p = 0; p < B; ++p) {
@@ -226,11 +230,11 @@ void check_exact(Ctx &c, const Pat &P, int variant, const std::vector<int> &perm
 
 // ---- values from the tape
 struct TapeValues : Values {
-    Tape &t; int B; bool cx, pow2;
-    TapeValues(Tape &t_, int B_, bool cx_, bool pow2_) : t(t_), B(B_), cx(cx_), pow2(pow2_) {}
+    Tape &t; int B; bool cx, pow2; int amp;
+    TapeValues(Tape &t_, int B_, bool cx_, bool pow2_, int amp_) : t(t_), B(B_), cx(cx_), pow2(pow2_), amp(amp_) {}
     void off(int, int, cplx *blk) override {
         bool nz = false;
-        for (int k = 0; k < B * B; ++k) { double re = static_cast<double>(t.u(-2, 2)), im = cx ? static_cast<double>(t.u(-2, 2)) : 0.0; blk[k] = cplx(re, im); nz = nz || re != 0 || im != 0; }
+        for (int k = 0; k < B * B; ++k) { double re = static_cast<double>(t.u(-amp, amp)), im = cx ? static_cast<double>(t.u(-amp, amp)) : 0.0; blk[k] = cplx(re, im); nz = nz || re != 0 || im != 0; }
         if (!nz) blk[0] = cplx(1, 0);
     }
     void pivot(int, cplx *P, cplx *Pinv) override {
@@ -302,7 +306,7 @@ static Pat gen_pattern(Tape &t, int nmax, std::string &fam, bool &disconnected) 
 template <class V>
 void prop_lu_exact(Tape &t, Ctx &c) {
     int variant = static_cast<int>(t.u(0, 3));
-    int nmax = t.b() ? 24 : 6;
+    int nmax = t.b() ? 20 : 6;
     std::string fam; bool disc;
     Pat P = gen_pattern(t, nmax, fam, disc);
     int zp = t.chance(1, 6) ? static_cast<int>(t.pick(P.n)) : -1;
@@ -310,13 +314,13 @@ void prop_lu_exact(Tape &t, Ctx &c) {
     bool pow2 = P.n <= 5;
     c.desc << "skyline_lu<" << LT<V>::name() << "> exact " << fam << " n=" << P.n << " nnz=" << P.nnz() << " order=" << variant_name(variant) << " zero_pivot=" << zp << " pattern=" << dump_pat(P);
     c.label("fam:" + fam); if (disc) c.label("disconnected");
-    TapeValues vals(t, LT<V>::B, LT<V>::cx, pow2);
+    TapeValues vals(t, LT<V>::B, LT<V>::cx, pow2, P.n <= 8 ? 2 : 1); // smaller entries for larger n: dense fill grows doubly exponentially
     check_exact<V>(c, P, variant, perm, vals, zp);
 }
 
-// exhaustive: all off-diagonal patterns of an n x n matrix, n <= 4
+// exhaustive: all off-diagonal patterns of an n x n matrix, n <= 4 (5 in the thorough tier)
 static void prop_lu_bits(Tape &t, Ctx &c) {
-    int n = static_cast<int>(t.u(1, 4));
+    int n = static_cast<int>(t.u(1, 5));
     uint32_t mask = static_cast<uint32_t>(t.u(0, (1u << (n * (n - 1))) - 1));
     int variant = static_cast<int>(t.u(0, 2));
     int vcls = static_cast<int>(t.u(0, 2));
@@ -395,7 +399,19 @@ void prop_lu_float(Tape &t, Ctx &c) {
     for (int i = 0; i < n; ++i) for (int p = 0; p < B; ++p) { cplx g = LT<V>::rget(x[i], p); VF_REQUIRE(std::isfinite(g.real()) && std::isfinite(g.imag()), "skyline_lu: non-finite solution component " << i); xs[i * B + p] = L(g); normx = std::max(normx, std::abs(xs[i * B + p])); }
     for (int r = 0; r < N; ++r) { lcplx s = L(bf[r]); for (int q = 0; q < N; ++q) s -= L(at(r, q)) * xs[q]; res = std::max(res, std::abs(s)); }
     long double cst = (cx ? 32.0L : 8.0L) * (B > 1 ? 8.0L : 1.0L);
-    long double tol = cst * N * N * U53 * normA * normx;
+    long double tol = cst * N * N * U53 * normA * normx * C16_TOLSCALE;
+    if (B > 1) {
+        // block pivots are inverted explicitly (D[i] = inverse(pivot)), which is only conditionally backward stable: the residual
+        // carries the condition number of the pivot blocks.  They are Schur complements of a strictly diagonally dominant matrix,
+        // hence dominant with at least the same margin: kappa(pivot) <= 2||A|| / gap, gap = min_r (|a_rr| - sum of the off-diagonals)
+        long double gapm = 1e300L;
+        for (int r = 0; r < N; ++r) {
+            long double sr = 0, sc = 0; for (int q = 0; q < N; ++q) if (q != r) { sr += std::abs(L(at(r, q))); sc += std::abs(L(at(q, r))); }
+            long double g = fam_v == 1 ? std::abs(L(at(r, r))) - sr : fam_v == 2 ? std::abs(L(at(r, r))) - sc : std::abs(L(at(r, r))) - std::max(sr, sc);
+            gapm = std::min(gapm, g);
+        }
+        tol *= std::max(1.0L, 2 * normA / gapm);
+    }
     VF_REQUIRE(res <= tol, "skyline_lu residual ||b-Ax||_inf = " << static_cast<double>(res) << " > " << static_cast<double>(tol) << " = " << static_cast<double>(cst) << "*N^2*u*||A||*||x|| (N=" << N << ", ||A||=" << static_cast<double>(normA) << ", ||x||=" << static_cast<double>(normx) << ")");
     // forward error against the generating solution: strictly dd => kappa_inf <= ||A|| / min_i (|a_ii| - sum_j |a_ij|)  (row-dd case)
     if (fam_v == 1) {
@@ -582,14 +598,13 @@ static std::vector<Enum> enums() {
     Enum e;
     e.name = "lu_all_patterns"; e.prop = "lu_bits";
     e.scope_quick = "all off-diagonal sparsity patterns of n x n matrices, n=1..4 (2^12 for n=4), x ordering {Cuthill-McKee, reverse Cuthill-McKee, identity} x 3 value assignments x "
-                    "{no zero pivot, zero pivot at each position} for double values; complex and 2x2-block values for n<=3";
-    e.scope_thorough = "quick scope plus complex and 2x2-block values for n=4";
+                    "{no zero pivot, zero pivot at each position} x value type {double, complex, 2x2 block}";
+    e.scope_thorough = "quick scope plus all 2^20 off-diagonal patterns of 5 x 5 matrices (double, Cuthill-McKee ordering, value assignment 1, no zero pivot and zero pivot at the last position)";
     e.gen = [](const std::string &tier, const Emit &emit) {
-        for (int vt = 0; vt < 3; ++vt) for (int n = 1; n <= 4; ++n) {
-            if (vt > 0 && n == 4 && tier != "thorough") continue;
+        for (int n = 1; n <= 4; ++n) for (int vt = 0; vt < 3; ++vt)
             for (uint32_t mask = 0; mask < (1u << (n * (n - 1))); ++mask) for (uint32_t var = 0; var < 3; ++var) for (uint32_t vc = 0; vc < 3; ++vc) for (uint32_t zp = 0; zp <= static_cast<uint32_t>(n); ++zp)
                 emit({static_cast<uint32_t>(n - 1), mask, var, vc, zp, static_cast<uint32_t>(vt)});
-        }
+        if (tier == "thorough") for (uint32_t mask = 0; mask < (1u << 20); ++mask) for (uint32_t zp = 0; zp <= 5; zp += 5) emit({4u, mask, 0u, 1u, zp, 0u});
     };
     Enum g;
     g.name = "cm_all_graphs"; g.prop = "cm_bits";
